@@ -388,7 +388,7 @@ func typedC19(alone, conc *CRecord, pkg string) []problem {
 	}
 	// exactness as such is C01's; here: what the handler holds does not change under it, nothing panics
 	for _, p := range typedExact(conc, pkg) {
-		if strings.Contains(p.Key, "value_changed_while_the_handler_held_it") || strings.Contains(p.Key, "client_panic") || strings.Contains(p.Key, "second_middleware") || strings.Contains(p.Key, "request/operation") || strings.Contains(p.Key, "ran_without_the_middleware") {
+		if strings.Contains(p.Key, "another_call's_credential") || strings.Contains(p.Key, "value_changed_while_the_handler_held_it") || strings.Contains(p.Key, "client_panic") || strings.Contains(p.Key, "second_middleware") || strings.Contains(p.Key, "request/operation") || strings.Contains(p.Key, "ran_without_the_middleware") {
 			out = append(out, p)
 		}
 	}
